@@ -133,6 +133,9 @@ theorem sp_length (n : Nat) : (sp n).length = n := by simp [sp]
 
 theorem sp_succ (n : Nat) : sp (n + 1) = 32 :: sp n := by simp [sp, List.replicate_succ]
 
+theorem sp_all_space (n : Nat) : (sp n).all isSpace = true := by
+  simp [sp, List.all_replicate]; right; decide
+
 theorem sp_prefix_cons (n : Nat) (c : UInt8) (r : Bytes) (hc : c ≠ 32) (hn : 0 < n) :
     (sp n).isPrefixOf (c :: r) = false := by
   cases n with
